@@ -99,6 +99,12 @@ FURTHER spec keys and constructs (each rule is derived from the AST; what is not
   numbers `[[[α]]]` under `total_index`: `A[i, :, k] = v` (`Py.setCol3`: Python's negative indices; nothing is written where an
   index is out of range or `v` has no element for a row; a `v` of length 1 is broadcast), `A[:, :, idx]` for an index array
   (`Py.takeLast3`), `A * c` (scalar broadcast).  `l[k:]` on lists (`List.drop`); an integer literal against an array is a scalar.
+  `while True:` (left by `break` / an exception): `Py.whileE fuel` with the extra parameter `fuel : Nat` (passes allowed; the error
+  `nontermination` when used up).  try: <statements> except C: <statements> in general (the body runs in a context whose raise
+  goes to the handler).  `with E as f:` for a declared expression E (expr_externals).  spec `streams=[names]`: a variable of type
+  [str] that is an open text file = the lines not yet read; `line = f.readline()` takes the next ('' at the end).  spec
+  `element_views=True`: `x = D[k]` for a dict D of records makes x the ELEMENT: `x.method(...)` / `x.field = e` are written back
+  into D (`Py.dset`) as long as x, k and D are not re-bound otherwise.  `x.field = e` for a local holding a record.
 Totalisations (Python raises or behaves differently): `a - b` on indices / counts is the truncated subtraction of `Nat` (a
 negative Python int is not represented); element-wise kernels on arrays of different lengths stop at the shorter one (numpy
 raises); subscripts under `total_index` (above).  Everything else that Python raises is an `Except.error`."""
